@@ -53,9 +53,21 @@ def lin_of(e: ast.expr, env: Dict[str, ast.expr]) -> Lin:
     raise Undecided(f"R2.1: length expression outside the linear fragment: {ast.unparse(e)}")
 
 
+class MultiByteCodec(Exception):
+    def __init__(self, node: ast.AST, codec: str) -> None:
+        super().__init__(codec)
+        self.node, self.codec = node, codec
+
+
 def lin_of_fstring(e: ast.expr) -> Lin:
     """Byte length of an f-string / constant encoded in a one-byte-per-character charset."""
     if isinstance(e, ast.Call) and isinstance(e.func, ast.Attribute) and e.func.attr == "encode":
+        codec = e.args[0] if e.args else next((k.value for k in e.keywords if k.arg == "encoding"), None)
+        cname = codec.value.lower().replace("_", "-") if isinstance(codec, ast.Constant) and isinstance(codec.value, str) else ("utf-8" if codec is None else None)
+        if cname not in ("latin-1", "latin1", "iso-8859-1", "iso8859-1", "l1", "ascii", "us-ascii"):
+            # the closed-form Content-Length counts CHARACTERS of the template (len(content_type) ...): only a one-byte-per-character
+            # codec makes that the number of bytes written
+            raise MultiByteCodec(e, cname or ast.unparse(codec))
         return lin_of_fstring(e.func.value)
     if isinstance(e, ast.Constant) and isinstance(e.value, (str, bytes)):
         return Lin({"1": len(e.value)})
@@ -370,7 +382,13 @@ def run(p: Program, rep: Report, tier: str) -> None:
     # content_length = <closing> + sum over the ranges of <per range>, however it is accumulated
     closing_formula, per_range_formula = _length_formula(gmn, cl_expr)
     lam = _generator_lambda(p, gm, gmn, lam)
-    header_emitted = lin_of_fstring(lam.body)
+    try:
+        header_emitted = lin_of_fstring(lam.body)
+    except MultiByteCodec as mb:
+        rep.violation("R2.1", construct(gm, text=f"part header encoded as {mb.codec}"), where(gm),
+                      f"the multipart part header is encoded with {mb.codec}, while the declared Content-Length counts its characters (len(content_type), digit counts): for a content type "
+                      "with a non-ASCII character every part is longer than declared (Content-Length too small by one byte per such character and part)")
+        raise Undecided("R2.1: length comparison not continued with a multi-byte part-header codec")
     lam_params = [a.arg for a in lam.args.args]
     for side in ("wsgi", "asgi"):
         cls = p.cls(f"baize.{side}.responses:FileResponse")
@@ -690,6 +708,38 @@ def run(p: Program, rep: Report, tier: str) -> None:
                     rep.violation("R2.4", construct(call, text=f"error start {txt[:60]}"), where(call), f"{side}: the range-error path does not forward the exception's status_code and headers")
         if n_range == 0 or n_err == 0:
             rep.undecide("R2.3", f"{side}: __call__ has {n_range} range paths / {n_err} error paths")
+        # HEAD answers like GET without the body: WHICH handler answers (and with which arguments besides the header-only flag)
+        # must not be decided by the request method - a HEAD fast path that skips the Range / If-Range handling answers
+        # 200 + full Content-Length where the GET gets 206 / 416 / 400
+        def _is_head(f):
+            return f[0] == "cmp" and f[1] in ("Eq", "NotEq") and any(x == ("const", "HEAD") for x in (f[2], f[3]))
+        head_branching = [pa for pa in paths if any(_is_head(f) for f, _t in pa.facts)]
+        if not head_branching:
+            rep.ok("R2.2", f"{side}: __call__ does not branch on the request method (HEAD only sets the header-only flag of the handler that GET would use)")
+        else:
+            def _handler_of(pa_):
+                hs = [e for e in pa_.events if e.kind == "call" and callee_is(e.a, "handle_all", "handle_single_range", "handle_several_ranges")]
+                errs = any(e.kind == "call" and (callee_is(e.a, "send_http_start") or e.a == ("param", "start_response")) and any(x[0] == "exc" for a in e.b for x in subterms(a)) for e in pa_.events)
+                return (show(hs[0].a).split(".")[-1] if hs else ("error" if errs else "none"))
+            bad_head = None
+            for ph in head_branching:
+                others = frozenset((f, t) for f, t in ph.facts if not _is_head(f))
+                for pq in paths:
+                    if pq is ph or pq.exit != ph.exit:
+                        continue
+                    qo = frozenset((f, t) for f, t in pq.facts if not _is_head(f))
+                    if others <= qo and _handler_of(pq) != _handler_of(ph) and ph.exit == "return":
+                        bad_head = (ph, pq)
+                        break
+                if bad_head:
+                    break
+            if bad_head:
+                ph, pq = bad_head
+                rep.violation("R2.2", construct(call, text="the request method chooses the handler"), where(call),
+                              f"{side}: __call__ branches on the request method and the two sides answer through different handlers ({_handler_of(ph)} when {'; '.join(ph.fact_text())[:80]} vs "
+                              f"{_handler_of(pq)} when {'; '.join(pq.fact_text())[:80]}): a HEAD with a Range header gets 200 and the full Content-Length where the GET gets 206 / 416 / 400")
+            else:
+                rep.ok("R2.2", f"{side}: __call__ tests the request method but both sides reach the same handler")
         # file_size is the captured stat's size
         SIZE = ("attr", ("attr", ("param", "self"), "stat_result"), "st_size")
         hcalls = [e for pa in paths for e in pa.events if e.kind == "call" and callee_is(e.a, "handle_all", "handle_single_range", "handle_several_ranges")]
